@@ -262,7 +262,7 @@ def pure(e) -> bool:
         return all(pure(v) for v in e.values)
     if isinstance(e, ast.Tuple):
         return all(pure(v) for v in e.elts)
-    if isinstance(e, ast.Call) and isinstance(e.func, ast.Name) and e.func.id in ("isinstance", "issubclass", "type", "callable") and not e.keywords:
+    if isinstance(e, ast.Call) and isinstance(e.func, ast.Name) and (e.func.id in ("isinstance", "issubclass", "type", "callable") or e.func.id in PURE_CALLS) and not e.keywords:
         return all(pure(a) for a in e.args)
     return False
 
@@ -409,6 +409,26 @@ def candidates(fn, stored_attrs=frozenset()) -> List[Cand]:
                         last.orelse = []
                         stmts[i + 1:i + 1] = moved
                     out.append(("else-out-last", f))
+            # a single exit statement after an `if` is what every fall-through path of that `if` ends with: pushed into those paths
+            # (`if a: (if b: return x) elif c: return y` + `raise E`  ->  every branch, nested ones included, gets its own `else: raise E`)
+            if isinstance(st, ast.If) and len(rest) == 1 and isinstance(rest[0], (ast.Raise, ast.Return)) and not isinstance(rest[0], ast.Return) or \
+                    (isinstance(st, ast.If) and len(rest) == 1 and isinstance(rest[0], ast.Return) and (rest[0].value is None or isinstance(rest[0].value, (ast.Name, ast.Constant)))):
+                def f(stmts=stmts, i=i, st=st, tail=rest[0]):
+                    def push(node):
+                        for fld in ("body", "orelse"):
+                            blk = getattr(node, fld)
+                            if fld == "orelse" and not blk:
+                                node.orelse = [copy.deepcopy(tail)]
+                                continue
+                            if exits(blk):
+                                continue
+                            if isinstance(blk[-1], ast.If):
+                                push(blk[-1])
+                            else:
+                                blk.append(copy.deepcopy(tail))
+                    push(st)
+                    del stmts[i + 1:]
+                out.append(("push-exit-deep", f))
             # `if c: A else: B(exits)`  ->  `if not c: B` + A   (swap + else-out in one step: the shape step would undo the swap alone)
             if isinstance(st, ast.If) and st.orelse and exits(st.orelse) and not (len(st.orelse) == 1 and isinstance(st.orelse[0], ast.If)):
                 for k, ng in enumerate(negations(st.test)):
@@ -1756,7 +1776,7 @@ def _unmatched_stmt_ids(fn, ref_fps):
 
 
 SIMPLIFYING = {"copy-coalesce", "drop-tail-return", "break-flag-return", "try-flag-in"}      # remove a redundancy: accepted when nothing that matched is lost
-DUPLICATING = {"push-tail", "unhoist", "if-split", "and-else-out", "ifexp-callee-out", "expand-local"}
+DUPLICATING = {"push-tail", "push-exit-deep", "unhoist", "if-split", "and-else-out", "ifexp-callee-out", "expand-local"}
 
 
 def direct_function(fn, ref_fps: List[str], known_names: set, stored_attrs, normalise: Callable, budget: int = 1500) -> int:
@@ -2424,6 +2444,25 @@ def candidates2(fn, stored_attrs) -> List[Cand]:
                     e.test = ng
                     e.body, e.orelse = e.orelse, e.body
                 out.append((f"ifexp-swap{k}", f))
+        # boolean context: `all(P(m) for m in (a, b))` <-> `P(a) and P(b)`;  `all(map(f, (a, b)))` <-> `f(a) and f(b)`;  any <-> or
+        boolctx0 = (isinstance(parent, (ast.If, ast.While)) and field == "test") or (isinstance(parent, ast.BoolOp)) or (isinstance(parent, ast.UnaryOp) and isinstance(parent.op, ast.Not)) \
+            or (isinstance(parent, ast.comprehension) and field == "ifs")
+        if boolctx0 and isinstance(e, ast.Call) and isinstance(e.func, ast.Name) and e.func.id in ("all", "any") and len(e.args) == 1 and not e.keywords:
+            a0 = e.args[0]
+            items = terms = None
+            if isinstance(a0, ast.GeneratorExp) and len(a0.generators) == 1 and not a0.generators[0].ifs and isinstance(a0.generators[0].target, ast.Name) \
+                    and isinstance(a0.generators[0].iter, (ast.Tuple, ast.List)) and all(isinstance(x, ast.Name) for x in a0.generators[0].iter.elts) and len(a0.generators[0].iter.elts) >= 2:
+                items = a0.generators[0].iter.elts
+                var = a0.generators[0].target.id
+                terms = [_Subst({var: it}).visit(copy.deepcopy(a0.elt)) for it in items]
+            elif isinstance(a0, ast.Call) and isinstance(a0.func, ast.Name) and a0.func.id == "map" and len(a0.args) == 2 and isinstance(a0.args[0], ast.Name) \
+                    and isinstance(a0.args[1], (ast.Tuple, ast.List)) and all(isinstance(x, ast.Name) for x in a0.args[1].elts) and len(a0.args[1].elts) >= 2:
+                terms = [L(ast.Call(func=copy.deepcopy(a0.args[0]), args=[copy.deepcopy(it)], keywords=[]), e) for it in a0.args[1].elts]
+            if terms:
+                def f(parent=parent, field=field, idx=idx, e=e, terms=terms):
+                    op = ast.And() if e.func.id == "all" else ast.Or()
+                    _set(parent, field, idx, L(ast.BoolOp(op=op, values=terms), e))
+                out.append(("allany-tuple-out", f))
         # boolean context: `True if a else b` <-> `a or b`;  `b if a else False` <-> `a and b`
         boolctx = (isinstance(parent, (ast.If, ast.While)) and field == "test") or (isinstance(parent, ast.comprehension) and field == "ifs") or (isinstance(parent, ast.UnaryOp) and isinstance(parent.op, ast.Not))
         if boolctx and isinstance(e, ast.IfExp):
